@@ -130,11 +130,20 @@ func main() {
 		if err != nil {
 			vt.Fatal("create segment: %v", err)
 		}
+		// (built directly with AddASEntry and the independent CMAC, so that the upstream entries do
+		// not depend on the extender under test)
+		beta0 := ps.Info.SegmentID
 		for a := 1; a <= pre; a++ {
-			ext := ases[a].Extender(segs.SignerGen{world.Signer(a, -100000, 300000, 0)})
-			if err := ext.Extend(ctx, ps, inIf[a], egIf[a], nil); err != nil {
+			mac := segs.HopMAC(ases[a].Key, beta0, uint32(ts.Unix()), 63, inIf[a], egIf[a])
+			ent := seg.ASEntry{Local: ases[a].IA, Next: ases[a+1].IA, MTU: int(ases[a].MTU),
+				HopEntry: seg.HopEntry{HopField: seg.HopField{ExpTime: 63, ConsIngress: inIf[a], ConsEgress: egIf[a], MAC: mac}}}
+			if a > 1 {
+				ent.HopEntry.IngressMTU = int(ases[a].Ifs[inIf[a]].MTU)
+			}
+			if err := ps.AddASEntry(ctx, ent, world.Signer(a, -100000, 300000, 0)); err != nil {
 				vt.Fatal("building prefix: %v", err)
 			}
+			beta0 ^= binary.BigEndian.Uint16(mac[:2])
 		}
 
 		// the request
